@@ -7,7 +7,7 @@ import json
 import os
 
 import vlib
-from checks import common, dayeval_common
+from checks import common, dayeval_common, iter_common
 
 PID = "C17"
 
@@ -39,6 +39,13 @@ def run(tier, corrupt=0):
     c.add("evaluations", tot["ok"] + tot["undet"] + tot["kind"] + tot["comment"])
     c.add("distinct_nontrivial", tot["commented"])
     c.setv("days_skipped_undetermined", tot["undet"])
+    # first-interval clause: the first interval of a stream carries the comments of the period containing the start
+    kept = list(c.mismatches)
+    rl = iter_common.record_parallel(c, "range", 400 if tier == "quick" else 8000, 8, extra=["--work-budget", 3_000_000 if tier == "quick" else 100_000_000])
+    verdicts, nint, nruns, nontrivial = iter_common.validate(c, rl, 8, "first interval comments")
+    c.mismatches = kept + [m for m in c.mismatches[len(kept):] if m["case"].get("verdict") == "comment"]
+    c.add("traces_validated_against_impl", len(rl))
+    c.setv("first_interval_events", len(rl))
     for l in fixed[:3]:
         e = json.loads(l)
         c.sample({"src": e["src"], "days": e["days"][:4], "tilings": e["tilings"][:2]})
